@@ -29,7 +29,7 @@ namespace JoblibModel.Store
 
 inductive Name
   | cache | gitignore | joblib | mod | func | funcCode
-  | entry (a : Nat) | output | meta | tmpOut (o : Nat) | tmpMeta (o : Nat)
+  | entry (a : Nat) | output | metadata | tmpOut (o : Nat) | tmpMeta (o : Nat)
 deriving DecidableEq, Repr, Inhabited
 
 abbrev Path := List Name
@@ -299,7 +299,7 @@ def pFunc : Path := [.cache, .joblib, .mod, .func]
 def pCode : Path := [.cache, .joblib, .mod, .func, .funcCode]
 def pEntry (a : Nat) : Path := [.cache, .joblib, .mod, .func, .entry a]
 def pOut (a : Nat) : Path := [.cache, .joblib, .mod, .func, .entry a, .output]
-def pMeta (a : Nat) : Path := [.cache, .joblib, .mod, .func, .entry a, .meta]
+def pMeta (a : Nat) : Path := [.cache, .joblib, .mod, .func, .entry a, .metadata]
 def pTmpOut (a o : Nat) : Path := [.cache, .joblib, .mod, .func, .entry a, .tmpOut o]
 def pTmpMeta (a o : Nat) : Path := [.cache, .joblib, .mod, .func, .entry a, .tmpMeta o]
 
